@@ -21,7 +21,7 @@ for cfg in CFGS:
     fb = facts.FactBase(cfg, m[cfg]["dir"], renames=False)
     for p, a in fb.adts.items():
         if a.get("kind") == "Struct" and p.startswith(("rln::", "zerokit_utils::")) and len(a["variants"]) == 1:
-            adts.setdefault(p, [[f["name"], f["ty"]] for f in a["variants"][0]["fields"]])
+            adts.setdefault(p, {})[cfg] = [[f["name"], f["ty"]] for f in a["variants"][0]["fields"]]
 out["__adts__"] = adts
 json.dump(out, open('/verif/zkrules/known_signatures.json', 'w'), indent=0, sort_keys=True)
 print(len(adts), "structs")
